@@ -6,6 +6,9 @@ import gen_kern as G
 
 ID = "C08"
 LEAN_MODULES = ["CatiiProps.C08"]
+USES_TRANSLATOR = True   # Gen/KernelsGen.lean is rewritten from the current set_operations.pyx (tools/translate_pyx.py)
+TRUSTED = ["tools/translate_pyx.py (Cython subset -> Lean: checked reads/writes, loops as recursive functions); C int "
+           "arithmetic modelled in N with checked subtraction"]
 RULE = ("exhaustive: all ordered pairs of subsets of a small universe containing 0 and 2^32-1 (6 elements quick, 8 "
         "thorough) for the three kernels, x {array, None} for the three wrappers; all lists of <=3 arrays drawn from "
         "subsets of a 4-universe (+ random longer lists) for the k-way union; operands sharing 65537 .. 70000 row ids; random long pairs over eleven overlap "
@@ -226,6 +229,17 @@ def run(ctx):
             same = False  # the model never errs on these inputs unless the impl would read out of bounds
         if not same:
             ctx.corr_fail("impl %s vs model %s" % (_s(got), _s(m)), case)
+    # the kernels REGENERATED from the current .pyx by tools/translate_pyx.py, run on the same operands
+    gen = [(r, c, g) for r, (c, g) in zip(reqs, pend) if r["fn"] in FN2]
+    try:
+        gans = ctx.model.run([{"fn": r["fn"], "l": r["l"], "r": r["r"]} for r, _c, _g in gen], driver="Driver/KernGen.lean")
+    except core.ModelBroken as e:
+        ctx.corr_fail("the kernel model regenerated from set_operations.pyx does not build/run: %s" % str(e)[-400:], {"translator": True})
+        return
+    ctx.hit("generated_model_requests", len(gen))
+    for (r, case, got), m in zip(gen, gans):
+        if not ("ok" in m and got[0] == "ok" and got[1] == m["ok"]):
+            ctx.corr_fail("impl %s vs the model regenerated from the .pyx %s" % (_s(got), _s(m)), case)
 
 
 def replay(ctx, rep):
